@@ -11,7 +11,7 @@
 //! Case format (also the transcript, see lean/Fv/Driver/Route.lean):
 //!   #case <id> threads=<k> [rootimplicit=1]
 //!   appender <name> <cap> <block|drop>
-//!   root <level> <a,b|->
+//!   root <level> <a,b|-> [nonadd]            (the flag is written to the YAML; the code never reads it)
 //!   logger <name|~> <level> <add|nonadd> <a,b|->
 //!   emit <thread> <seq> <log|tracing> <target|~> <level>  => <a,b|->
 //!   shutdown <shutdown|drop>                              => ok
@@ -75,7 +75,7 @@ struct Emit { thread: usize, seq: usize, api: String, target: String, level: u8,
 #[derive(Clone, Debug, Default)]
 struct Case {
   id: String, threads: usize, root_implicit: bool,
-  apps: Vec<App>, root_level: u8, root_apps: Vec<usize>, loggers: Vec<Lg>,
+  apps: Vec<App>, root_level: u8, root_apps: Vec<usize>, root_nonadditive: bool, loggers: Vec<Lg>,
   emits: Vec<Emit>, shutdown_kind: Option<String>,
   /// op lines in file order (config + emit + shutdown), for the transcript
   lines: Vec<String>,
@@ -94,6 +94,8 @@ fn parse_case(c: &CaseIn) -> Result<Case, String> {
     match t.as_slice() {
       ["appender", n, cap, pol] => k.apps.push(App { name: n.to_string(), cap: cap.parse().map_err(|_| "cap")?, block: *pol == "block" }),
       ["root", lvl, apps] => { k.root_level = level_of(lvl); k.root_apps = app_idx(&k.apps, apps)?; }
+      // root's `additive` flag is read by nobody (it is only the fallback); the YAML still carries it
+      ["root", lvl, apps, add] => { k.root_level = level_of(lvl); k.root_apps = app_idx(&k.apps, apps)?; k.root_nonadditive = *add == "nonadd"; }
       ["logger", n, lvl, add, apps] => {
         let apps = app_idx(&k.apps, apps)?;
         k.loggers.push(Lg { name: untok(n), level: level_of(lvl), additive: *add == "add", apps });
@@ -124,7 +126,7 @@ fn yaml_of(k: &Case) -> String {
   let names = |v: &Vec<usize>| v.iter().map(|i| k.apps[*i].name.clone()).collect::<Vec<_>>().join(", ");
   let mut body = String::new();
   if !k.root_implicit {
-    body.push_str(&format!("  root:\n    level: {}\n    appenders: [{}]\n", LEVELS[k.root_level as usize], names(&k.root_apps)));
+    body.push_str(&format!("  root:\n    level: {}\n    appenders: [{}]\n{}", LEVELS[k.root_level as usize], names(&k.root_apps), if k.root_nonadditive { "    additive: false\n" } else { "" }));
   }
   for l in &k.loggers {
     body.push_str(&format!("  \"{}\":\n    level: {}\n    appenders: [{}]\n    additive: {}\n", l.name, LEVELS[l.level as usize], names(&l.apps), l.additive));
@@ -605,7 +607,7 @@ fn gen_case(rng: &mut Rng, id: String, tier: &str) -> CaseIn {
   };
   let root_implicit = rng.chance(1, 10);
   if root_implicit { ops.push("root info -".into()); }
-  else { ops.push(format!("root {} {}", LEVELS[rng.below(6) as usize], subset(rng, 20))); }
+  else { ops.push(format!("root {} {}{}", LEVELS[rng.below(6) as usize], subset(rng, 20), if rng.chance(1, 4) { " nonadd" } else { "" })); }
   // logger tree: a family of names that are prefixes of each other with and without `::`
   let nlog = *rng.weighted(&[(1, 0usize), (2, 1), (3, 2), (4, 3), (4, 4), (3, 5), (2, 7)]);
   let mut names: Vec<&str> = vec![];
@@ -646,7 +648,7 @@ fn gen_race(rng: &mut Rng, id: String) -> CaseIn {
   let threads = rng.range(1, 4) as usize;
   let n = *rng.pick(&[50usize, 200, 400]);
   let after = rng.below((threads * n) as u64 + 1) as usize;
-  let cap = *rng.pick(&[1usize, 2, 4, 16, 1024]);
+  let cap = *rng.pick(&[1usize, 2, 4, 16, 64, 1024, 1024]);
   let sd = if rng.chance(1, 2) { "shutdown" } else { "drop" };
   CaseIn { id, header: vec!["kind=race".into(), format!("threads={threads}"), format!("n={n}"), format!("after={after}"), format!("cap={cap}"), format!("sd={sd}")], ops: vec![] }
 }
